@@ -196,7 +196,12 @@ package resolver
 //@   assert at call (*middleware/resolver.Resolver).verifyDNSSEC#1: lastret("middleware/resolver/dnssec.ValidateSigner") == nil && arg2 == signer && arg4 == resp && arg5 == lastret("(*middleware/resolver.Resolver).findDS") && len(arg5) > 0
 //@   assert at store dns.MsgHdr.AuthenticatedData#1: value ==> lastret("(*middleware/resolver.Resolver).verifyDNSSEC") && lastret("middleware/resolver/dnssec.VerifyWildcardAnswerForZoneWithWork")
 //@   assert at store dns.MsgHdr.AuthenticatedData#2: value ==> resp.AuthenticatedData && targetMsg.AuthenticatedData
-//@   assert at call internal/dnsutil.FilterRRsToZone#1: arg1 == signer && lastret("(*middleware/resolver.Resolver).verifyDNSSEC")
+//@   assert at call internal/dnsutil.FilterRRsToZone#2: arg1 == signer && lastret("(*middleware/resolver.Resolver).verifyDNSSEC")
+//@   # C07: the answer section is cut down to the records owned inside the zone whose servers sent the reply BEFORE
+//@   # anything follows an alias in it, validates it, or hands it back (to be cached and relayed)
+//@   assert at call internal/dnsutil.FilterRRsToZone#1: arg0 == old(resp.Answer) && arg1 == zone
+//@   assert at store dns.Msg.Answer#1: value == lastret("internal/dnsutil.FilterRRsToZone") && calls("internal/dnsutil.FilterRRsToZone") == 1 && calls("(*middleware/resolver.Resolver).checkDname") == 0
+//@   assert at call (*middleware/resolver.Resolver).checkDname#1: calls("internal/dnsutil.FilterRRsToZone") == 1 && arg2 == resp
 //@   # C08: a DNAME target leg's outcome (records, rcode, denial) is adopted into the outer reply only after the outer
 //@   # reply was bound to the lease of the delegation the target leg was learned through - whatever the target
 //@   # contributed (answers, NXDOMAIN or an answer-less NODATA)
@@ -547,6 +552,8 @@ package resolver
 //@   assert at store resolver.resolveState.cutDeadline#1: value == lastret("middleware/resolver.minCut")
 //@   assert at call (*middleware/resolver.Resolver).searchCache#1: arg2 == rs.req.CheckingDisabled
 //@   assert at call (*middleware/resolver.Resolver).answer#1: arg2 == rs.req && arg3 == lastret("(*middleware/resolver.Resolver).setTags") && !lastret("(*middleware/resolver.Resolver).minimize", 1)
+//@   # C07: the zone the answer is cut down to is the zone of the servers that were asked
+//@   assert at call (*middleware/resolver.Resolver).answer#1: arg5 == rs.servers.Zone
 //@   assert at call (*middleware/resolver.Resolver).authority#1: arg2 == rs.req && arg3 == lastret("(*middleware/resolver.Resolver).setTags")
 //@   # C01: a name error is a denial whatever its sections hold: an NXDOMAIN reply with EMPTY answer and authority
 //@   # sections is returned only as the result of authority() (which demands the proof under a signed zone), never as is
